@@ -23,21 +23,25 @@ ProphyFaults == {"none", "delete_token", "swap_tokens", "illegal_char", "undefin
                  "self_recursive_struct", "mutually_recursive_structs", "unterminated_comment", "empty_file",
                  "random_text", "constant_as_type", "greedy_not_last", "token_fuzz", "self_typedef_sizer",
                  "negative_shift", "huge_shift", "huge_array", "deep_parentheses", "nul_byte", "byte_order_mark",
-                 "typedef_of_undefined", "union_self_arm", "enum_self_reference"}
+                 "typedef_of_undefined", "union_self_arm", "enum_self_reference", "non_utf8", "non_utf8_include",
+                 "include_directory"}
 IsarFaults == {"none", "malformed_xml", "type_cycle", "self_reference", "undefined_type", "duplicate_enum_value",
                "missing_include", "bad_dimension", "member_without_name", "member_without_type", "empty_root",
                "random_text", "constant_cycle", "token_fuzz", "self_typedef_member", "typedef_cycle_member",
                "union_self_arm", "negative_shift_constant", "huge_dimension", "dangling_expression", "typedef_without_type",
-               "enum_without_members", "non_numeric_enum_value", "non_numeric_discriminator"}
+               "enum_without_members", "non_numeric_enum_value", "non_numeric_discriminator", "non_utf8",
+               "division_by_zero", "size_names_type"}
 PatchFaults == {"none", "one_word_line", "unknown_action", "wrong_param_count", "member_not_found", "non_integer_index",
-                "absent_message", "empty_patch"}
+                "absent_message", "empty_patch", "non_utf8_patch"}
 OptionFaults == {"none", "no_input", "no_output", "missing_input_file", "isar_and_sack", "missing_include_dir",
                  "missing_patch_file", "unknown_option"}
 
 \* phase in which a fault must be detected; "-" = tolerated (the run completes)
 DetectedIn(fe, f) ==
     CASE f = "none" -> "-"
-      [] fe = "prophy" /\ f \in {"missing_include", "cyclic_include", "self_include"} -> "Files"
+      [] fe = "prophy" /\ f \in {"missing_include", "cyclic_include", "self_include", "non_utf8", "non_utf8_include",
+                                   "include_directory"} -> "Files"
+      [] fe = "isar" /\ f = "non_utf8" -> "Files"
       [] fe = "prophy" -> "Parse"
       [] fe = "isar" /\ f \in {"malformed_xml", "duplicate_enum_value", "member_without_name", "empty_root",
                                  "random_text"} -> "Parse"
